@@ -1,1 +1,1 @@
-// kani harnesses (included from /repo under cfg(kani))
+// (no Kani harnesses: std BTreeSet under symbolic inserts does not terminate in CBMC; C28 is handled by E2 or not at all)
